@@ -931,6 +931,34 @@ def part_pull_race(ctx):
     return p
 
 
+def part_tx_wrapper(ctx):
+    """ent Client.DoTx / DoCtxTx / DoCtxTxRetry against Tx.do_tx / Tx.do_retry: answer class and durability for
+    every combination of a BEGIN fault, closure outcome, COMMIT fault, ROLLBACK fault, with and without retries"""
+    p = Part("transaction-wrapper")
+    d = os.path.join(ctx["work"], "txdiff")
+    rc, out = harness(["tx-diff", "-out", d], timeout=900)
+    if rc != 0:
+        p.violation("harness-failed", "tx-diff failed: " + out[-1500:], dict(log=out[-3000:]), found_input=False)
+        return p
+    info = json.load(open(os.path.join(d, "tx.json")))
+    p.evaluations = info["n"]
+    p.traces = info["n"]
+    p.nontrivial = sum(1 for c in info["cases"] if c["returned"] != "ROk")
+    p.samples = info["cases"][:3]
+    p.info = dict(exhaustive=True, durable_cases=sum(1 for c in info["cases"] if c["durable"]))
+
+    def bad(f, n, lst):
+        idx = [int(x) for x in re.findall(r"(\d+)", lst)]
+        cs = [info["cases"][i] for i in idx[:10]]
+        lost = [c for c in cs if c["returned"] == "ROk" and not c["durable"]]
+        key = "success-without-commit" if lost else "tx-wrapper-differs"
+        p.violation(key, "Client.DoTx / DoCtxTxRetry differs from Tx.do_retry%s: %s" %
+                    (" - it answered nil although nothing was committed" if lost else "", json.dumps((lost or cs)[:2])[:700]),
+                    dict(kind="tx-diff", cases=cs))
+    _eval_dir(p, d, "tx.v", ["bad"], bad)
+    return p
+
+
 def part_adapter(ctx):
     """the StreamingPull request adapter (services.VerifAdaptIn, hook) against Adapter.adapt_in"""
     p = Part("streaming-pull-request-adapter")
@@ -1191,7 +1219,7 @@ CHECKS = {
     "C01": dict(
         props=["C01", "Tie"],
         parts=[engine_part("delivery", 40, 600, 45, claim_c01, ["deliveries_created", "pull_nonempty", "redelivery", "nack_rescheduled"]),
-               stream_part(STREAM_C01), part_publish_faults],
+               stream_part(STREAM_C01), part_publish_faults, part_tx_wrapper],
         rule="[+ publish under fault: with a storage fault at every statement position (sampled for a 150-message batch) a Publish that answers OK has stored everything] [+ stream part: a message nacked on a stream (Nack list or zero deadline, also through the StreamingPull RPC) must not end up acknowledged] generated histories (profile delivery: publish/pull/ack/modack/nack/seek/jobs/clock jumps) against the production gRPC server; every step is checked "
              "locally: model step from the implementation's pre-state vs response and full five-table post-state; non-trivial = deliveries created, non-empty pulls, redeliveries",
         assumptions=BUS_ASSUME),
@@ -1227,8 +1255,8 @@ CHECKS = {
                                   "H3 (no seek on the subscription) is NECESSARY: with a seek the property fails on the model (C05_seek_revival_refuted) and on the code (part seek-revival: known finding seek-revival-overtake)"]),
     "C09": dict(
         props=["C09", "Tie"],
-        parts=[part_fault_enum, part_services_fault],
-        rule="[+ service part: the prune-deleted-topics service (one long-lived action object) is held before its SECOND run, a topic with a left-over snapshot is aged past the threshold and each of the run's 5 driver calls is failed in turn: tables unchanged, the next run prunes] for each of 26 mutating operations in a prepared non-trivial state, the k-th driver call (BEGIN/exec/query/COMMIT) is failed (error or context-cancellation error), "
+        parts=[part_fault_enum, part_services_fault, part_tx_wrapper],
+        rule="[+ transaction wrapper: Client.DoTx / DoCtxTxRetry against Tx.do_retry on all 80 combinations of BEGIN fault x closure outcome (ok, error, panic, cancelled) x COMMIT fault x ROLLBACK fault x (no retry, two retries): nil iff durable] [+ service part: the prune-deleted-topics service (one long-lived action object) is held before its SECOND run, a topic with a left-over snapshot is aged past the threshold and each of the run's 5 driver calls is failed in turn: tables unchanged, the next run prunes] for each of 26 mutating operations in a prepared non-trivial state, the k-th driver call (BEGIN/exec/query/COMMIT) is failed (error or context-cancellation error), "
              "every k in both tiers (215 positions); checks: error reported, five-table dump identical, no publish waiter woken, retry succeeds and matches the model; "
              "non-trivial = distinct (operation, position) pairs at which the fault fired",
         trusted=["the database's own atomicity under failure (ROLLBACK restores the snapshot) is assumed; the driver wrapper injects failures before the statement runs"],
